@@ -394,23 +394,39 @@ impl Sim {
         delivered: Option<Block>,
     ) -> StepResult {
         let parent_hash = self.tip().hash;
-        // the transactions in the order the block carries them (hash-map drain order)
-        let ngiven = txs.len() + gt.is_some() as usize;
-        let given: Vec<Transaction> = match &created {
-            Some(b) => b.transactions[0..ngiven.min(b.transactions.len())].to_vec(),
-            None => {
-                let mut v = vec![];
-                if let Some(g) = &gt {
-                    v.push(g.clone());
-                }
-                for t in txs {
-                    let mut t = t.clone();
-                    t.generate(&self.node.pk, 0, 0);
-                    v.push(t);
-                }
-                v
+        // the transactions handed to Block::create: the golden ticket first, then the pooled ones in
+        // the order the block carries them (hash-map drain order); pooled transactions that
+        // Block::create left out (they spend an output the block rebroadcasts) come last
+        let mut given: Vec<Transaction> = vec![];
+        if let Some(g) = &gt {
+            match &created {
+                Some(b) if !b.transactions.is_empty() && b.transactions[0].signature == g.signature => given.push(b.transactions[0].clone()),
+                _ => given.push(g.clone()),
             }
-        };
+        }
+        let pooled: Vec<Transaction> = txs
+            .iter()
+            .map(|t| {
+                let mut t = t.clone();
+                t.generate(&self.node.pk, 0, 0);
+                t
+            })
+            .collect();
+        match &created {
+            Some(b) => {
+                for t in &b.transactions {
+                    if pooled.iter().any(|p| p.signature == t.signature) && !matches!(t.transaction_type, TransactionType::ATR | TransactionType::Fee) {
+                        given.push(t.clone());
+                    }
+                }
+                for p in &pooled {
+                    if !b.transactions.iter().any(|t| t.signature == p.signature && !matches!(t.transaction_type, TransactionType::ATR | TransactionType::Fee)) {
+                        given.push(p.clone());
+                    }
+                }
+            }
+            None => given.extend(pooled.iter().cloned()),
+        }
         let create_code = match &create {
             CreateOutcome::Ok => 1,
             CreateOutcome::Err(_) => 0,
